@@ -185,6 +185,81 @@ def run(ctx):
               "thread_set_state:no-cpu-rejected", tss.loc(),
               "thread_set_state accepts a state change while the thread has no CPU")
 
+    # ---- R4.5 ---------------------------------------------------------------
+    ctx.rule("R4.5", "every documented transition also passes the channel layer: thread_init_end is interpreted with "
+             "chan.c's own chan_init / chan_prop_set to obtain the properties of the thread's channels, then "
+             "thread_set_state is interpreted with chan.c's chan_set on those channels holding what the previous "
+             "state published (a thread that stays active keeps its TID: a channel that refuses an unchanged value "
+             "would reject Running -> Cooling and Warming -> Running)")
+    CHANC = "src/emu/chan.c"
+    tie = prog.fn("thread_init_end", THFILE)
+
+    def s_veq(ex_, st, args, f, e):
+        def ld(a):
+            if a[0] != "ptr":
+                return None
+            v = st.store.get((a[1], a[2]))
+            if v is not None:
+                return v
+            if (a[1], ("zeroinit",)) in st.store or any(k[0] == a[1] and k[1][:len(a[2])] == a[2] for k in st.store):
+                return ("val", "null")
+            return None
+        x, y = ld(args[0]), ld(args[1])
+        if x is None or y is None:
+            return None
+        return [(INT(1 if x == y else 0), {})]
+
+    def s_memset(ex_, st, args, f, e):
+        # memset(chan, 0, sizeof *chan): every field of the object reads as zero
+        a = args[0]
+        if a[0] != "ptr" or args[1] != INT(0):
+            return None
+        upd = {}
+        for k in list(st.store):
+            if k[0] == a[1] and k[1][:len(a[2])] == a[2] and len(k[1]) > len(a[2]):
+                upd[k] = INT(0)
+        upd[(a[1], a[2] + (("chan", "zeroed"),))] = INT(1)
+        return [(TOP, upd)]
+    def s_val(ex_, st, args, f, e):
+        return [(("val", "i64", args[0]), {})]
+
+    def s_null(ex_, st, args, f, e):
+        return [(("val", "null"), {})]
+    sums5 = {"value_int64": s_val, "value_null": s_null, "value_is_equal": s_veq, "memset": s_memset,
+             "__builtin___memset_chk": s_memset,
+             "vsnprintf": lambda ex_, st, a, f, e: [(INT(5), {})], "__builtin___vsnprintf_chk": lambda ex_, st, a, f, e: [(INT(5), {})]}
+    eff = effects.Effects(prog)
+    ex5 = absint.Explorer(prog, effects=eff, summaries=sums5, loop_bound=12, max_depth=4,
+                          inline=lambda n, d: d.file in (CHANC, THFILE) and n not in sums5)
+    outs = [o for o in ex5.run(tie, [PTR("TH")], {("TH", F("thread", "gindex")): INT(0), ("TH", F("thread", "meta")): PTR("META")})
+            if o.kind == "ret" and o.ret == INT(0)]
+    ctx.need(len(outs) >= 1, "thread_init_end: no successful path")
+    base5 = {k: v for k, v in outs[0].store.items() if k[0] == "TH"}
+    nprop = prog.enum_val("CHAN_PROP_MAX") if "CHAN_PROP_MAX" in dict(prog.enums.get("chan_prop", {}).get("enumerators", [])) else 4
+    for v, evs in sp["events"].items():
+        for stname in evs["from"]:
+            to = evs["to"]
+            store = dict(base5)
+            for ci in range(prog.enum_val("TH_CHAN_MAX")):
+                cp = F("thread", "chan") + (ci,)
+                for pi in range(nprop):
+                    store.setdefault(("TH", cp + F("chan", "prop") + (pi,)), INT(0))
+                store[("TH", cp + F("chan", "is_dirty"))] = INT(0)
+                store.setdefault(("TH", cp + F("chan", "dirty_cb")), NULL)
+                store[("TH", cp + F("chan", "last_value"))] = ("val", "null")
+            store[("TH", F("thread", "chan") + (chan_idx["state"],) + F("chan", "last_value"))] = ("val", "i64", INT(prog.enum_val(stname)))
+            if stname in sp["active"]:
+                store[("TH", F("thread", "chan") + (chan_idx["tid"],) + F("chan", "last_value"))] = ("val", "i64", INT(4242))
+            store.update({("TH", F("thread", "cpu")): PTR("CPU0"), ("TH", F("thread", "tid")): INT(4242),
+                          KS: INT(prog.enum_val(stname))})
+            outs = ex5.run(tss, [PTR("TH"), INT(prog.enum_val(to))], store)
+            rets = [o for o in outs if o.kind == "ret"]
+            inst = "channels:%s:%s->%s" % (evs["name"], stname, to)
+            ctx.check(bool(rets) and all(o.ret == INT(0) for o in rets), "R4.5", inst, tss.loc(),
+                      "the documented transition %s (%s -> %s) is refused by the channel layer: thread_set_state "
+                      "returns %s with the channel properties thread_init_end sets" %
+                      (evs["name"], stname, to, sorted({str(o.ret) for o in rets})))
+
     # ---- R4.4 ---------------------------------------------------------------
     fin = prog.fn("model_ovni_finish", "src/emu/ovni/setup.c")
     ex2 = make_explorer(prog, set())
